@@ -683,7 +683,10 @@ func runScene(t *testing.T, res *vh.Result, tr *vh.Trace, id int, n int, scene s
 		case "splitpools":
 			x.splitPools(a)
 		}
-		if !x.synchronous(3, 6*n, true) {
+		// (split pools: the unchanged tree itself needs up to 10 rounds per height there - view changes until a proposal
+		// suits every private pool -, so no tighter bound than the general one is sound)
+		bound := 6 * n
+		if !x.synchronous(3, bound, true) {
 			break
 		}
 	}
